@@ -393,7 +393,7 @@ func run(c *fw.Ctx) error {
 	if err != nil {
 		return err
 	}
-	sel := &selector{full: !c.Quick(), seed: strconv.FormatInt(c.Seed, 10), rate: 300}
+	sel := &selector{full: !c.Quick(), seed: strconv.FormatInt(c.Seed, 10), rate: 200}
 	r := &runner{c: c, rowSeen: map[uint64]struct{}{}}
 
 	// producer: enumerate -> programs -> waves
@@ -447,13 +447,15 @@ func run(c *fw.Ctx) error {
 	for wave := range waves {
 		tw := time.Now()
 		for _, p := range wave {
-			r.account(p.cases)
 			if !c.Quick() && rng.Intn(100) < 2 {
 				natSample = append(natSample, p)
 			}
 		}
 		if skipReplay {
 			continue
+		}
+		for _, p := range wave {
+			r.account(p.cases)
 		}
 		missing := r.runWave(wave)
 		if err := r.resolve(missing); err != nil {
